@@ -1,6 +1,7 @@
 package main
 
 import (
+	"go/types"
 	"fmt"
 	"go/constant"
 	"go/token"
@@ -154,6 +155,9 @@ func r16_2(c *RC) {
 			}
 			id := calleeID(cl)
 			key := "generator-call@" + fn.Name()
+			if _, _, isHint := hintHelper(cl.Common().StaticCallee()); isHint {
+				return // judged where its result is handed to FixedInt
+			}
 			if !allowed(id) {
 				c.Bad(key, cl.Pos(), "%s calls %s: implicit values must depend on the seed, unlockAll and the explicit fields only", fn.Name(), strings.ReplaceAll(id, modPath+"/", ""))
 				return
@@ -161,6 +165,29 @@ func r16_2(c *RC) {
 			if strings.HasSuffix(id, "rng.FixedInt") {
 				// hint = Sprintf("%d:<key>", seed)
 				hk := ""
+				// the hint may be built by a local helper: func implicitHint(seed int, field string) string { return fmt.Sprintf("%d:%s", seed, field) }
+				for _, hl := range Leaves(cl.Common().Args[1], nil) {
+					hc, ok := hl.(*ssa.Call)
+					if !ok {
+						continue
+					}
+					if seedIdx, fieldIdx, isHint := hintHelper(hc.Common().StaticCallee()); isHint {
+						seedOK := false
+						for _, l2 := range Leaves(hc.Common().Args[seedIdx], nil) {
+							if prm, ok := l2.(*ssa.Parameter); ok && prm.Name() == "seed" {
+								seedOK = true
+							}
+						}
+						if k, ok := hc.Common().Args[fieldIdx].(*ssa.Const); ok && seedOK && k.Value != nil {
+							hk = "%d:" + constant.StringVal(k.Value)
+						}
+					}
+				}
+				if hk != "" {
+					hints[p.Pos(cl.Pos())] = hk
+					c.OK(key, cl.Pos(), "rng.FixedInt(n, hint(seed, %q))", strings.TrimPrefix(hk, "%d:"))
+					return
+				}
 				if sp, ok := cl.Common().Args[1].(*ssa.Call); ok && calleeID(sp) == "fmt.Sprintf" {
 					if k, ok := sp.Common().Args[0].(*ssa.Const); ok {
 						hk = constant.StringVal(k.Value)
@@ -800,4 +827,47 @@ func r16_5(c *RC) {
 	} else {
 		c.Bad("alphabet", enc.Pos(), "Encode uses base64.%s, Decode base64.%s", a, b)
 	}
+}
+
+
+// hintHelper: fn returns fmt.Sprintf("%d:%s", <int param>, <string param>)
+// and nothing else; returns the indices of the seed and the field parameter.
+func hintHelper(fn *ssa.Function) (seedIdx, fieldIdx int, ok bool) {
+	if fn == nil || fn.Blocks == nil || len(fn.Blocks) != 1 || relPkg(fn) != tpPkg || len(fn.Params) != 2 {
+		return 0, 0, false
+	}
+	var sp *ssa.Call
+	for _, in := range fn.Blocks[0].Instrs {
+		switch x := in.(type) {
+		case *ssa.Call:
+			if calleeID(x) == "fmt.Sprintf" && sp == nil {
+				sp = x
+			} else {
+				return 0, 0, false
+			}
+		case *ssa.Return:
+			if sp == nil || len(x.Results) != 1 || x.Results[0] != ssa.Value(sp) {
+				return 0, 0, false
+			}
+		}
+	}
+	if sp == nil {
+		return 0, 0, false
+	}
+	k, isK := sp.Common().Args[0].(*ssa.Const)
+	if !isK || k.Value == nil || constant.StringVal(k.Value) != "%d:%s" {
+		return 0, 0, false
+	}
+	seedIdx, fieldIdx = -1, -1
+	for i, prm := range fn.Params {
+		if bt, ok := prm.Type().Underlying().(*types.Basic); ok {
+			if bt.Info()&types.IsInteger != 0 {
+				seedIdx = i
+			}
+			if bt.Info()&types.IsString != 0 {
+				fieldIdx = i
+			}
+		}
+	}
+	return seedIdx, fieldIdx, seedIdx >= 0 && fieldIdx >= 0
 }
